@@ -1556,6 +1556,10 @@ def _df_slice(df, lb = None, ub = None, openclose = '[)'):
         2) for timeseries df[dt1:dt2] is close-close while for normal dataframe df[lb,ub] is close-open
     
     """
+    if isinstance(df, (pd.Series, pd.DataFrame)) and isinstance(ub, datetime.time) and isinstance(lb, datetime.time) and lb>ub:
+        pre  = _df_slice(df, None, ub, openclose)
+        post = _df_slice(df, lb, None, openclose)
+        return pd.concat([pre, post]).sort_index()
     if isinstance(df, (pd.Index, pd.Series, pd.DataFrame)) and len(df)>0 and (ub is not None or lb is not None):
         l,u = openclose if openclose else '[)'
         l = _closed(l); u = _closed(u)
